@@ -268,6 +268,8 @@ def search_c01(results, tier, seed, broken):
         dist["sat=%s prover=%s verdict=%s" % (sat, s.get("prover"), s.get("verdict"))] += 1
         if (re.search(r"n1=(\d+) n2=(\d+)", tag) or [0])[0]:
             nontriv.add(tag + "|" + " ".join(im.get(5, []))[:60])
+        if im.get(22) == ["0"]:
+            hits.append(_hit(r, comp, streams, cid, "after an accepted proof the prover's and the verifier's transcripts are in different states: a further challenge drawn from each differs, so a second honest proof on the same transcripts is rejected"))
         if tag.startswith("honest-large") and "nomodel=1" in s.get("line", ""):
             # larger circuits run on the real code only; one-phase ones satisfy their constraints by construction
             if s.get("prover") != 0:
@@ -287,6 +289,15 @@ def search_c02(results, tier, seed, broken):
     hits, n, nontriv, dist = [], 0, set(), Counter()
     for comp, streams, r, cid, s, im, m in _r1cs_cases(results):
         tag = s.get("tag", "")
+        if tag.startswith("forwardref"):
+            n += 1
+            dist["forwardref violated=%s verdict=%s" % (_tagval(tag, "violated"), s.get("verdict"))] += 1
+            nontriv.add(("forwardref", s["curve"], _tagval(tag, "kind"), _tagval(tag, "violated")))
+            if _tagval(tag, "violated") == "1" and s.get("verdict") == 0:
+                hits.append(_hit(r, comp, streams, cid, "a violated constraint that was stated before the variable it mentions existed (kind %s: 0 = later commitment, 1 = later gate, 2 = second-phase gate) is accepted" % _tagval(tag, "kind")))
+            if _tagval(tag, "violated") == "0" and s.get("verdict") != 0:
+                hits.append(_hit(r, comp, streams, cid, "a satisfied circuit with a constraint stated before its variable existed is rejected (verdict %s)" % s.get("verdict")))
+            continue
         if tag.startswith("manycons"):
             n += 1
             dist["manycons verdict=%s" % s.get("verdict")] += 1
@@ -400,12 +411,14 @@ def search_c09(results, tier, seed, broken):
             hits.append(_hit(r, comp, streams, g[1][0], "same statement, same external randomness: proofs differ"))
         for var, why in ((2, "different external randomness"), (3, "same external randomness but different commitment blinding factors"),
                          (4, "same external randomness, other commitment blinding factors with the same sum"),
-                         (6, "B~ = 2B, the same commitment points opened as (v-2, r+1) / (v+2, r-1): same transcript, same external randomness, same blinding sum")):
+                         (6, "B~ = 2B, the same commitment points opened as (v-2, r+1) / (v+2, r-1): same transcript, same external randomness, same blinding sum"),
+                         (8, "two external generators that agree on their first 8 bytes and differ afterwards")):
             if var not in g:
                 continue
-            ref = g[5][1] if var == 6 and 5 in g else i0
-            if var == 6 and 5 not in g:
+            refv = {6: 5, 8: 7}.get(var)
+            if refv is not None and refv not in g:
                 continue
+            ref = g[refv][1] if refv is not None else i0
             p0, s0 = comps(ref)
             p, sc = comps(g[var][1])
             if not p0 or not p:
@@ -509,6 +522,8 @@ def search_c06(results, tier, seed, broken):
                 ops = vlib.parse_tr(_ints(im[7]))
                 nontriv.add(tuple((k, l) for k, l, _ in ops))
                 dist["prover transcript ops=%d" % len(ops)] += 0
+            if im.get(22) == ["0"]:
+                hits.append(_hit(r, comp, streams, cid, "accepted run: a follow-up challenge drawn from the prover's transcript differs from the one drawn from the verifier's"))
             # honest, unmodified runs: prover and verifier sequences must be identical
             if (tag.startswith("honest") or tag.startswith("cs ")) and 7 in im and 14 in im and s.get("verdict") == 0:
                 if im[7] != im[14]:
@@ -755,8 +770,15 @@ def search_c18(results, tier, seed, broken):
                 n += 1
                 hits.append(_fhit(r, cid, "%s: %s" % (cid, text)))
         n += len(fx["ref"])
+    for comp, streams, r in results:
+        if comp == "r1cs":
+            # freshly generated proofs against the recorded schedule (the model, pinned by the C18 theorems)
+            for cid, code, text in r.disagreements:
+                if code in (7, 14):
+                    n += 1
+                    hits.append(_hit(r, comp, streams, cid, "a fresh proof's transcript deviates from the reference schedule: " + text))
     return hits, {"searched": n, "hits": len(hits), "distinct_nontrivial": len(nontriv), "distribution": dict(dist),
-                  "rule": "fixtures recorded once from revision b4846a6 through the public API (3 curves x 6 circuits: one multiplier, none, three, two-phase shuffle, mixed 2+3 gates padded to 8, two-phase with a multiplier-free closure): this build must accept each recorded proof (with 8 and with 64 generators), reject it under a changed constant, changed application data, changed transcript label, shifted commitment and reordered commitments, reproduce every recorded generator digest and Pedersen base, and re-prove byte-identical proofs from the recorded RNG seed"}
+                  "rule": "fixtures recorded once from revision b4846a6 through the public API (3 curves x 7 circuits: one multiplier, none, three, two-phase shuffle, mixed 2+3 gates padded to 8, two-phase with a multiplier-free closure, a memo written between two commitments): this build must accept each recorded proof (with 8 and with 64 generators), reject it under a changed constant, changed application data, changed transcript label, shifted commitment and reordered commitments, reproduce every recorded generator digest and Pedersen base, and re-prove byte-identical proofs from the recorded RNG seed"}
 
 
 # ------------------------------------------------------------------ C04 / C05
@@ -878,7 +900,7 @@ PROPS = {
     "C02": {
         "prop_files": ["Properties/C02.v"], "run_files": ["Run/R1cs.v"],
         "level": "proof",
-        "components": lambda tier: [("r1cs", ["violate", "honest", "manycons"], {})],
+        "components": lambda tier: [("r1cs", ["violate", "honest", "manycons", "forwardref"], {})],
         "search": search_c02,
         "assumptions": ["field and F-module laws, B <> 0; oracle idealisation; the probability statement itself is not formalised (counting form proved)"],
     },
